@@ -97,7 +97,7 @@ Definition resp_body (k : nat) (c : call) : body := if c_close c then BClose els
 
 (* the `else` branch of _listen: run the message on the klong loop and send the result back;
    a raising evaluation escapes _listen and reaches _run's generic handler ("unknown error") *)
-Definition dispatch (fl : flags) (ok : bool) (s : state) : state * list event :=
+Definition dispatch_msg (fl : flags) (ok : bool) (s : state) : state * list event :=
   if ok then (s, []) else (teardown fl XConnFail s, [ELoss]).
 
 Definition step (fl : flags) (s : state) (a : label) : option (state * list event) :=
@@ -170,12 +170,12 @@ Definition step (fl : flags) (s : state) (a : label) : option (state * list even
             else
               match b with
               | BClose => Some (teardown fl XCloseConn (with_running s false), [EResp k b; ELoss])
-              | BVal _ => let '(s', ev) := dispatch fl ok s in Some (s', EResp k b :: ev)
+              | BVal _ => let '(s', ev) := dispatch_msg fl ok s in Some (s', EResp k b :: ev)
               end
           else None
       | None => None
       end
-  | APush ok => if is_run (lst s) then Some (dispatch fl ok s) else None
+  | APush ok => if is_run (lst s) then Some (dispatch_msg fl ok s) else None
   | ACloseReq => if is_run (lst s) then Some (teardown fl XCloseConn (with_running s false), [ELoss]) else None
   | ACut => if is_run (lst s) then Some (teardown fl XConnFail s, [ELoss]) else None
   | AReset => if is_run (lst s) then Some (teardown fl XConnFail (with_copen s false), [ELoss]) else None
